@@ -18,6 +18,7 @@ import json
 import sys
 
 import stix2
+import stix2.utils
 import stix2.v21
 from stix2 import properties as P
 import collections.abc
@@ -89,6 +90,8 @@ KINDS = {
 
 
 def call(case):
+    if case.get("probe") == "year999":
+        return {"text": stix2.utils.format_datetime(dt.datetime(999, 1, 2, 3, 4, 5))}
     ty = case["type"]
     props = [(dec_str(k), dec(v)) for k, v in case["props"]]
     allow_custom = bool(case.get("allow_custom"))
@@ -97,7 +100,13 @@ def call(case):
         if case.get("custom"):
             cu = case["custom"]
 
-            @stix2.v21.CustomObservable(ty, [(n, KINDS[k]()) for n, k in cu["props"]], list(cu["contrib"]))
+            given = cu.get("given", cu["contrib"])
+            if given is None:
+                deco = stix2.v21.CustomObservable(ty, [(n, KINDS[k]()) for n, k in cu["props"]])
+            else:
+                deco = stix2.v21.CustomObservable(ty, [(n, KINDS[k]()) for n, k in cu["props"]], list(given))
+
+            @deco
             class _C(object):
                 pass
             cls = _C
